@@ -12,15 +12,17 @@ Import List ListNotations.
 Open Scope Z_scope.
 
 (* GENERIC.  If one allocation is a single atomic read-modify-write of the counter whose RESULT
-   is the id (decidable predicate alloc_safeb: the skeleton is [atomic_add; ret_reg]) then for
-   every initial counter value, every number of threads, every number of allocations per thread
-   and EVERY schedule: all ids handed out so far are pairwise distinct, and each lies in
+   is the id (alloc_safeb: the skeleton is [atomic_add; ret_reg]), or a plain load / store /
+   read-back inside ONE region of the package mutex (lock_safeb: [lock; load; store_inc; ret_load;
+   unlock] or [lock; load; store_inc; load; ret_reg; unlock]) -- decidable predicate alloc_okb --
+   then for every initial counter value, every number of threads, every number of allocations per
+   thread and EVERY schedule: all ids handed out so far are pairwise distinct, and each lies in
    (initial counter, current counter]. *)
 Theorem c18_generic sk g0 counts sched :
-  alloc_safeb sk = true ->
+  alloc_okb sk = true ->
   let s := arun (ainit sk g0 counts) sched in
   NoDup (ids s) /\ Forall (fun id => g0 < id <= ag s) (ids s).
-Proof. exact (atomic_unique sk g0 counts sched). Qed.
+Proof. exact (alloc_unique sk g0 counts sched). Qed.
 
 (* THE CODE IN /repo.  The skeleton regenerated from logger/go17.go satisfies the predicate (by
    computation), hence the statement holds for the code as it is now.  A source change that
@@ -34,7 +36,7 @@ Proof. apply c18_generic. vm_compute. reflexivity. Qed.
 (* the hypothesis of c18_generic is satisfiable and the conclusion is about a real run:
    3 threads x 2 allocations under an interleaved schedule hand out 1000..1005 *)
 Example c18_generic_nonvacuous :
-  alloc_safeb [IAtomicAdd; IRetReg] = true /\
+  alloc_okb [IAtomicAdd; IRetReg] = true /\
   ids (arun (ainit [IAtomicAdd; IRetReg] 999 [2; 2; 2]%nat) [0; 1; 2; 2; 1; 0; 0; 1; 2; 2; 1; 0]%nat)
   = [1003; 1004; 1005; 1000; 1001; 1002].
 Proof. vm_compute. auto. Qed.
@@ -44,7 +46,7 @@ Proof. vm_compute. auto. Qed.
    the bounded search find_cex computes a schedule of two threads x one allocation after which
    the same id has been returned twice. *)
 Theorem c18_plain_refuted :
-  alloc_safeb old_skel = false /\
+  alloc_okb old_skel = false /\
   exists sched, find_cex old_skel = Some sched /\
                 ~ NoDup (ids (arun (ainit old_skel 999 [1; 1]%nat) sched)).
 Proof.
@@ -61,11 +63,19 @@ Proof. apply dup_after_sound. vm_compute. reflexivity. Qed.
 (* An atomic add is not enough when the id is a LATER read of the counter: rejected by the
    predicate, and refuted by a computed schedule. *)
 Theorem c18_reload_refuted :
-  alloc_safeb [IAtomicAdd; IRetLoad] = false /\
+  alloc_okb [IAtomicAdd; IRetLoad] = false /\
   exists sched, ~ NoDup (ids (arun (ainit [IAtomicAdd; IRetLoad] 999 [1; 1]%nat) sched)).
 Proof.
   split; [reflexivity|]. exists [0; 1; 0; 1]%nat. apply dup_after_sound. vm_compute. reflexivity.
 Qed.
+
+(* the mutex form is accepted and runs: 2 threads x 2 allocations, interleaved; a thread that
+   does not get the lock makes no progress on that step *)
+Example c18_locked_nonvacuous :
+  alloc_okb locked1 = true /\ alloc_okb locked2 = true /\
+  ids (arun (ainit locked1 999 [2; 2]%nat) ([0; 1; 0; 1; 0; 0; 0; 1; 1; 1; 1; 1; 0; 0; 0; 0; 0; 1; 1; 1; 1; 1])%nat)
+  = [1003; 1002; 1001; 1000].
+Proof. vm_compute. auto. Qed.
 
 (* ALIAS.  AliasContext(parent, source) has the recognised shape (computation on the generated
    skeleton); for a source that carries an id the result carries exactly that id and the counter
@@ -120,6 +130,14 @@ Proof.
     cbn [pre_printf app]; repeat rewrite <- app_assoc; reflexivity.
 Qed.
 
+(* the decimal rendering used for pid and cid ([dec], fmt's %v of an int): for a non-negative number
+   only the digits '0'..'9', most significant first, denoting that number; a negative number is
+   '-' followed by the rendering of its absolute value *)
+Theorem c18_dec z : (0 <= z)%Z -> Forall is_digit (dec z) /\ fst (rval (dec z)) = Z.to_N z.
+Proof. exact (dec_nonneg z). Qed.
+Theorem c18_dec_neg p : dec (Zneg p) = 45%N :: dec (Zpos p).
+Proof. exact (dec_neg p). Qed.
+
 (* the labels are the four of logger.go *)
 Example c18_labels :
   label 0 = bstr "[info] " /\ label 1 = bstr "[trace] " /\ label 2 = bstr "[warn] " /\ label 3 = bstr "[error] ".
@@ -150,5 +168,6 @@ Print Assumptions c18_alias.
 Print Assumptions c18_line_format_println.
 Print Assumptions c18_line_println_general.
 Print Assumptions c18_line_format_printf.
+Print Assumptions c18_dec.
 Print Assumptions c18_lines_whole.
 Print Assumptions c18_every_write_is_a_line.
